@@ -195,6 +195,69 @@ def build_and_link(tag, scripts, info, rng, extra_sections=True):
         raise
 
 
+def ldsem_fidelity(L, info, driver, script):
+    """runs the Lean linker semantics (Slinkyv.Ld, driver op `ld`) on the same script and object table and compares it
+    with what GNU ld produced: every symbol value, every output section's address and size, the address of every
+    placed input section. Returns (compared, mismatches) or None when the case is outside what the semantics covers."""
+    if any(degenerate(s) for s in emitted(info)) or not info.get("discard_wildcard", True):
+        return None
+    objs = []
+    seen = []
+    for (p, m) in L.order:
+        if p not in seen:
+            seen.append(p)
+    for p in seen:
+        for (pp, m) in L.order:
+            if pp != p:
+                continue
+            for sec, size, align, nobits in L.objects[(pp, m)]:
+                if sec == "COMMON":
+                    continue
+                objs.append([pp, m, sec, size, align])
+    used = {s["path"] for s in parse_script(script) if s["kind"] == "input"}
+    objs = [o for o in objs if o[0] in used]
+    ans = driver.ask({"op": "ld", "script": script, "objects": objs, "defsyms": [[k, v] for k, v in FIXED_SYMS.items()]})
+    if not ans or "syms" not in ans:
+        return (0, ["driver gave no answer to op ld"])
+    if not ans.get("stable", True) or ans.get("emptied"):
+        return None     # symbols read before their assignment have not settled after three evaluations
+    bad = []
+    n = 0
+    for name, v in ans["syms"].items():
+        if name in FIXED_SYMS or name == ".":
+            continue
+        real = L.symbols.get(name)
+        if real is None:
+            continue
+        n += 1
+        if real != v % (1 << 32):
+            bad.append("symbol %s: GNU ld 0x%X, Lean semantics 0x%X" % (name, real, v))
+    for o in ans["secs"]:
+        if o["name"] in (".symtab", ".strtab", ".shstrtab"):
+            continue        # the linker's own tables
+        real = sec_by_name(L, o["name"])
+        if real is None:
+            if o["size"] != 0:
+                bad.append("section %s (size 0x%X in the Lean semantics) is missing from the image" % (o["name"], o["size"]))
+            continue
+        n += 1
+        if real["size"] != o["size"] or (real["addr"] != o["addr"] % (1 << 32) and not (o["size"] == 0 and o["name"] in info.get("allowlist", []))):
+            bad.append("section %s: GNU ld addr 0x%X size 0x%X, Lean semantics addr 0x%X size 0x%X" % (o["name"], real["addr"], real["size"], o["addr"], o["size"]))
+    for p, m, sec, addr, out in ans["placed"]:
+        real = marker_addr(L, p, m, sec)
+        if real is None:
+            size = [x[1] for x in L.objects[(p, m)] if x[0] == sec]
+            bad.append("%s:%s(%s): placed by the Lean semantics, missing from the image" % (p, m, sec))
+            continue
+        n += 1
+        size = [x[1] for x in L.objects[(p, m)] if x[0] == sec][0]
+        if out in info.get("allowlist", []) and out == sec:
+            continue    # order of the files inside a `*(sec)` single-entry section: ld's file walk, no property speaks about it
+        if real != addr % (1 << 32) and not (size == 0 and sec_by_name(L, out) is None):
+            bad.append("%s:%s(%s): GNU ld 0x%X, Lean semantics 0x%X" % (p, m, sec, real, addr))
+    return (n, bad)
+
+
 def sec_by_name(L, name):
     for s in L.sections:
         if s["name"] == name:
